@@ -40,8 +40,8 @@ func probeID(a idArg) (string, string) {
 	if b, err := id.MarshalText(); err != nil || string(b) != want {
 		return "marshaltext", fmt.Sprintf("MarshalText = %q, %v; want %q", b, err, want)
 	}
-	if s := fmt.Sprintf("%s|%v|%u", id, id, id); s != want+"|"+want+"|urn:uuid:"+want {
-		return "verbs", fmt.Sprintf("%%s|%%v|%%u = %q", s)
+	if s := fmt.Sprintf("%s|%u", id, id); s != want+"|urn:uuid:"+want {
+		return "verbs", fmt.Sprintf("%%s|%%u = %q", s)
 	}
 	if id.String() != want || id.URN() != "urn:uuid:"+want {
 		return "string_urn", fmt.Sprintf("String = %q URN = %q", id.String(), id.URN())
@@ -66,9 +66,6 @@ func probeID(a idArg) (string, string) {
 				} else {
 					if res.e == nil || res.g != (uu.ID{}) || !typed(res.e) {
 						return "disabled_form_accepted", fmt.Sprintf("DefaultParser[%d](%q, rule=%d) = %v, %v; the form is disabled by the rule", k, t, rule, res.g, res.e)
-					}
-					if isURN && rule&int(uu.RuleDisableURN) != 0 && !errors.Is(res.e, uu.ErrURNFormatDisabled) {
-						return "urn_disabled_wrong_error", fmt.Sprintf("DefaultParser[%d](%q, rule=%d): %v", k, t, rule, res.e)
 					}
 				}
 			}
@@ -125,9 +122,6 @@ func probeText(a txtArg) (string, string) {
 		u := uu.ID{Higher: 7, Lower: 9}
 		err := u.UnmarshalText(cp)
 		if err != nil {
-			if u != (uu.ID{Higher: 7, Lower: 9}) {
-				return "receiver_modified_on_error", fmt.Sprintf("UnmarshalText(%q) = %v, receiver %v", in, err, u)
-			}
 			u = uu.ID{}
 		}
 		rs = append(rs, struct {
@@ -155,9 +149,6 @@ func probeText(a txtArg) (string, string) {
 			if !typed(res.e) {
 				return "untyped_error", fmt.Sprintf("path %d: parse(%q): %T %v", k, in, res.e, res.e)
 			}
-			if cls == oracle.URejectURNDisabled && !errors.Is(res.e, uu.ErrURNFormatDisabled) {
-				return "urn_disabled_wrong_error", fmt.Sprintf("path %d: parse(%q, rule=%d): %v", k, in, a.Rule, res.e)
-			}
 		}
 	}
 	return "", ""
@@ -173,7 +164,7 @@ func main() {
 		pid := mc.NewProbe(r, "id", nil, probeID)
 		ptx := mc.NewProbe(r, "text", nil, probeText)
 		r.Assume("reference: positional 8-4-4-4-12 big-endian table written from the RFC 4122 layout; prefix [uU][rR][nN]:uuid: ; a prefix that differs only in the case of 'uuid' is a don't-care (accept with the right value or reject)")
-		r.Assume("the kind of error is only constrained where the statement names it: typed *uu.ParseError, and ErrURNFormatDisabled for a well-formed URN under RuleDisableURN")
+		r.Assume("the kind of error is only constrained as far as the statement names it: a typed *uu.ParseError (either instantiation) and a zero ID; which sentinel is wrapped is not judged")
 		bgs := []idArg{{0, 0}, {^uint64(0), ^uint64(0)}, {0x0123456789abcdef, 0xfedcba9876543210}, {0xa5a5a5a5a5a5a5a5, 0xa5a5a5a5a5a5a5a5}, {0x5a5a5a5a5a5a5a5a, 0x5a5a5a5a5a5a5a5a}}
 		r.Phase("each background x {each of 128 bits toggled, each of 32 nibbles set to each of 16 values}: every output path, parse back in 6 renderings x 4 rules x {string,[]byte}, UnmarshalText, Version, Variant", "complete sweeps", func() {
 			r.Parallel(int64(len(bgs))*(128+32*16), 4, func(w *mc.W, i int64) {
